@@ -7,6 +7,7 @@ import gen  # noqa
 import genfold  # noqa  (registers generators)
 import genlimits  # noqa
 import genqueue  # noqa
+import genbounds  # noqa
 
 VERIF = build.VERIF
 REPO = build.REPO
